@@ -557,17 +557,19 @@ class AASXWriter:
             except KeyError:
                 logger.warning("Could not find file {} in file store.".format(file_name))
                 continue
+            # Relative-path references are resolved against the AAS part, just like the AASXReader does
+            supplementary_part_name = pyecma376_2.package_model.part_realpath(file_name, part_name)
             # Check if this supplementary file has already been written to the AASX package or has a name conflict
-            if self._supplementary_part_names.get(file_name) == hash:
+            if self._supplementary_part_names.get(supplementary_part_name) == hash:
                 continue
-            elif file_name in self._supplementary_part_names:
+            elif supplementary_part_name in self._supplementary_part_names:
                 logger.error("Trying to write supplementary file {} to AASX twice with different contents"
-                             .format(file_name))
-            logger.debug("Writing supplementary file {} to AASX package ...".format(file_name))
-            with self.writer.open_part(file_name, content_type) as p:
+                             .format(supplementary_part_name))
+            logger.debug("Writing supplementary file {} to AASX package ...".format(supplementary_part_name))
+            with self.writer.open_part(supplementary_part_name, content_type) as p:
                 file_store.write_file(file_name, p)
-            supplementary_file_names.append(pyecma376_2.package_model.normalize_part_name(file_name))
-            self._supplementary_part_names[file_name] = hash
+            supplementary_file_names.append(pyecma376_2.package_model.normalize_part_name(supplementary_part_name))
+            self._supplementary_part_names[supplementary_part_name] = hash
 
         # Add relationships from submodel to supplementary parts
         logger.debug("Writing aas-suppl relationships for AAS object part {} to AASX package ...".format(part_name))
